@@ -524,3 +524,29 @@ package container
 //@   requires c != nil && c.socket != nil && c.socket.Socket != nil && c.socket.Socket.UnixConn != nil && c.process != nil
 //@   assigns PR.killed, PR.waited
 //@   ensures PR.killed[c.process] && PR.waited[c.process]
+
+// ---- container init entry point (C06, C16): when it really is the container init (pid 1, "init" argument)
+// it marks every inherited descriptor close-on-exec before it wraps the control socket on descriptor 3,
+// and it never returns to the caller: every way out of the function ends in os.Exit ----
+//@ func container.ignoreSignals
+//@   trusted "signal.Ignore of the signals that would kill the init"
+//@   pure
+//@ func go:container.(*containerServer).sendLoop
+//@   assumed "send loop goroutine: verified separately, no interleaving semantics"
+//@   pure
+//@ func go:container.(*containerServer).recvLoop
+//@   assumed "receive loop goroutine: verified separately, no interleaving semantics"
+//@   pure
+//@ func go:container.(*containerServer).waitLoop
+//@   assumed "wait loop goroutine: verified separately, no interleaving semantics"
+//@   pure
+//@ func container.Init$1 props C16
+//@   arith int
+//@   assigns nothing
+//@   ensures false
+//@ func container.Init props C06 C16
+//@   arith int
+//@   assume P.st == 0 && WA.tokens == 0
+//@   assigns FD.cloexec, D.entries, FC.closed, P.st, S._all, FD._all, W._all, K._all, O._all, R._all, U._all, WA._all, FC._all
+//@   ensures @C16 err == nil
+//@   callsite unixsocket.NewSocket: assert @C06 fd == 3 && forall k int :: 0 <= k && k < len(D.entries) ==> FD.cloexec[atoi(dename(D.entries[k]))]
